@@ -415,7 +415,21 @@ pub fn check_value<T: Fam>(x: &T, l: &mut Local) -> Check {
         Ok(Err(e)) => return fail("from-serialize-refused", e.to_string()),
         Err(p) => return fail("panic/from_serialize", p),
     };
-    for (how, c) in [("insert", &c1), ("insert_value", &c2), ("from_serialize", &c3)] {
+    // the converted value is itself serialisable data: `insert` of the converted value goes through Serialize for Value
+    let mut c4 = tera::Context::new();
+    if let Err(p) = guard(|| c4.insert("v", &v)) {
+        return fail("panic/insert-converted", p);
+    }
+    match guard(|| tera::Value::try_from_serializable(&v)) {
+        Ok(Ok(v2)) => {
+            if from_tera(&v2) != from_tera(&v) {
+                return fail("reconversion-differs", format!("converting the converted value again gives {:?} instead of {:?}", canon(&from_tera(&v2)), canon(&from_tera(&v))));
+            }
+        }
+        Ok(Err(e)) => return fail("reconversion-refused", e.to_string()),
+        Err(p) => return fail("panic/reconversion", p),
+    }
+    for (how, c) in [("insert", &c1), ("insert_value", &c2), ("from_serialize", &c3), ("insert-converted", &c4)] {
         let got = print_ctx(c);
         l.eval();
         // an Option::None / unit at top level prints as nothing
